@@ -428,8 +428,33 @@ constexpr MagRepresentationOrError<T> root(T x, std::uintmax_t n) {
     return {MagRepresentationOutcome::OK, static_cast<T>(lo_diff < hi_diff ? lo : hi)};
 }
 
+// Whether a magnitude base can be converted to the (widened) type `W` we use for computations.
+//
+// This can only fail for integral bases (i.e., primes) that exceed an integral type's maximum.
+template <typename W, typename B>
+constexpr bool base_fits_in_impl(B base, std::true_type) {
+    return static_cast<std::uintmax_t>(base) <=
+           static_cast<std::uintmax_t>(std::numeric_limits<W>::max());
+}
+template <typename W, typename B>
+constexpr bool base_fits_in_impl(B, std::false_type) {
+    return true;
+}
+template <typename W, typename B>
+constexpr bool base_fits_in(B base) {
+    return base_fits_in_impl<W>(
+        base,
+        stdx::bool_constant<(std::is_integral<W>::value && std::is_integral<B>::value)>{});
+}
+
 template <typename T, std::intmax_t N, std::uintmax_t D, typename B>
 constexpr MagRepresentationOrError<Widen<T>> base_power_value(B base) {
+    // A prime above the widened type's max (e.g., one above INT64_MAX, for signed `T`) would wrap
+    // around when cast below, instead of being reported as not fitting.
+    if (!base_fits_in<Widen<T>>(base)) {
+        return {MagRepresentationOutcome::ERR_CANNOT_FIT};
+    }
+
     if (N < 0) {
         const auto inverse_result = base_power_value<T, -N, D>(base);
         if (inverse_result.outcome != MagRepresentationOutcome::OK) {
